@@ -11,8 +11,8 @@
     [itf8_Decode] are regenerated from the Go source on every run. *)
 From Coq Require Import ZArith List Bool.
 From Hts Require Import Base.Prim Base.DecBase Generated
-  Model.DecText Model.DecBam Model.DecIndex Model.DecCram Model.DecBgzf
-  Proofs.DecText Proofs.DecBam Proofs.DecIndex Proofs.DecCram Proofs.DecBgzf.
+  Model.DecText Model.DecBam Model.DecIndex Model.DecCram Model.DecBgzf Model.DecSam Model.Fai
+  Proofs.DecText Proofs.DecBam Proofs.DecIndex Proofs.DecCram Proofs.DecBgzf Proofs.DecSam.
 Open Scope Z_scope.
 
 (* ------------------------------------------------ CIGAR tables and accessors *)
@@ -65,12 +65,32 @@ Theorem sam_empty_line_rejected : forall l, zlen l = 0 -> sam_field_count l = Er
 Proof. exact sam_empty_line_rejected_gen. Qed.
 Print Assumptions sam_empty_line_rejected.
 
-(** ParseAux: for every text and every answer of strconv. (That the returned
-    Aux is accepted by the accessors is checked by the correspondence and the
-    fuzz run only: no theorem.) *)
+(** ParseAux: for every text and every answer of strconv. *)
 Theorem parse_aux_total : forall lib text, safe (parse_aux lib text).
 Proof. exact parse_aux_total_gen. Qed.
 Print Assumptions parse_aux_total.
+
+(** Every Aux that ParseAux returns is accepted by Tag, Type, Kind, Value and
+    String, hence by MarshalSAM and by buildAux (bam.Writer.Write). *)
+Theorem parse_aux_value_safe :
+  forall lib text a, all_bytes text = true -> zlen text < 2 ^ 31 -> parse_aux lib text = Ok a -> aux_wf a.
+Proof. exact parse_aux_value_safe_gen. Qed.
+Print Assumptions parse_aux_value_safe.
+
+(** Record.UnmarshalSAM as a whole: field split and count, flags / positions /
+    mapping quality (strconv), reference look-ups, ParseCigar, NewSeq/contract,
+    Cigar.IsValid, QUAL handling, the aux loop with ParseAux. *)
+Theorem unmarshal_sam_total :
+  forall lib b, all_bytes b = true -> zlen b < 2 ^ 31 -> safe (unmarshal_sam lib b).
+Proof. exact unmarshal_sam_total_gen. Qed.
+Print Assumptions unmarshal_sam_total.
+
+(** ... and the record it returns is accepted by End/Bin/Len, IsValid, Lengths,
+    Seq.Expand (String, MarshalSAM), every Aux accessor and buildAux. *)
+Theorem unmarshal_sam_value_safe :
+  forall lib b r, all_bytes b = true -> zlen b < 2 ^ 31 -> unmarshal_sam lib b = Ok r -> safe (srec_accessors r).
+Proof. exact unmarshal_sam_value_safe_gen. Qed.
+Print Assumptions unmarshal_sam_value_safe.
 
 (* --------------------------------------------------------------------- BAM *)
 
@@ -97,6 +117,17 @@ Theorem bam_record_value_safe :
     bam_record data omit nrefs = Ok r -> safe (record_accessors r).
 Proof. exact bam_record_value_safe_gen. Qed.
 Print Assumptions bam_record_value_safe.
+
+(** The BAM reader top level: NewReader (magic, header text, reference records)
+    and Read called until its first error, over every byte string the BGZF layer
+    can deliver (a source that fails at offset k is observed as the string cut at
+    k): no panic, termination, and every record returned on the way is safe. *)
+Theorem bam_reader_total :
+  forall lib refs_ok omit s, all_bytes s = true ->
+    safe (bam_reader lib refs_ok omit s) /\
+    forall rs, bam_reader lib refs_ok omit s = Ok rs -> Forall (fun r => safe (record_accessors r)) rs.
+Proof. exact bam_reader_ok. Qed.
+Print Assumptions bam_reader_total.
 
 (** Header.DecodeBinary (lText, nRef, lName feeding make; name[n-1]). *)
 Theorem binary_header_total : forall lib refs_ok s, safe (decode_binary_header lib refs_ok s).
@@ -128,6 +159,13 @@ Theorem fai_position_value_safe :
   forall conv fields r p, zlen fields = 5 -> fai_record conv fields = Ok r -> 0 <= p < f_len r -> safe (fai_position r p).
 Proof. exact fai_position_value_safe_gen. Qed.
 Print Assumptions fai_position_value_safe.
+
+(** fai.NewIndex (model of the C19 development): an index or one of its four
+    errors on every byte string. (bufio.Scanner's token limit is an error
+    return of the library and is not modelled.) *)
+Theorem fai_newindex_total : forall file, safe (newindex file).
+Proof. exact fai_newindex_total_gen. Qed.
+Print Assumptions fai_newindex_total.
 
 (* -------------------------------------------------------------------- CRAM *)
 
